@@ -21,6 +21,7 @@
 #include <gmssl/mem.h>
 #include <gmssl/http.h>
 #include <gmssl/error.h>
+#include <gmssl/verif.h>
 
 
 static const char *x509_crl_reason_names[] = {
@@ -660,7 +661,16 @@ int x509_revoked_certs_find_revoked_cert_by_serial_number(const uint8_t *d, size
 	const uint8_t *sn;
 	size_t sn_len;
 
-	while (dlen) {
+	while (dlen)
+	VERIF_LOOP_ASSIGNS(d, dlen, sn, sn_len, *revoke_date, *crl_entry_exts, *crl_entry_exts_len,
+		verif_rv_calls, verif_rv_ci_snlen, verif_rv_ci_seen, verif_rv_ci_cmp, verif_rv_ci_cmp_seen, verif_rv_last_sn, verif_rv_last_snlen, verif_rv_ci_sn,
+		verif_rvm_last, verif_rvm_n, verif_rvm_a, verif_rvm_b, verif_rvm_calls)
+	VERIF_LOOP_INVARIANT(dlen <= VERIF_LOOP_ENTRY(dlen))
+	VERIF_LOOP_INVARIANT(dlen == 0 || (VERIF_SAME_OBJECT(d, VERIF_LOOP_ENTRY(d)) && VERIF_OFFSET(d) + dlen == VERIF_OFFSET(VERIF_LOOP_ENTRY(d)) + VERIF_LOOP_ENTRY(dlen)))
+	/* the entry at the free index verif_rv_ci, once examined, did not match */
+	VERIF_LOOP_INVARIANT(verif_rv_calls <= verif_rv_ci || (verif_rv_ci_seen == 1 && !(verif_rv_ci_snlen == serial_len && verif_rv_ci_cmp_seen == 1 && verif_rv_ci_cmp == 0)))
+	VERIF_LOOP_DECREASES(dlen)
+	{
 		if (x509_revoked_cert_from_der(&sn, &sn_len, revoke_date,
 			crl_entry_exts, crl_entry_exts_len, &d, &dlen) != 1) {
 			error_print();
